@@ -1,26 +1,30 @@
 #!/bin/bash
 # usage: tools/seeded_matrix.sh [seeded-id ...]
-# Applies every independently written change under /verif/seeded/ to /repo in turn (git apply), runs the quick
-# checks named in its meta.json, reverts (git checkout -- .), keeps the replay file of each catch next to the
-# change, and writes the table to seeded/MATRIX.txt. /repo must be clean.
+# Applies every independently written change under /verif/seeded/ in turn to a scratch worktree of /repo (never
+# /repo itself), runs the quick checks named in its meta.json against that tree (VERIF_REPO), removes the worktree,
+# keeps the replay file of each catch next to the change, and writes the table to seeded/MATRIX.txt.
 set -u
 cd "$(dirname "$0")/.."
-if ! git -C /repo diff --quiet; then echo "/repo is dirty"; exit 2; fi
 ids=("$@"); [ ${#ids[@]} -eq 0 ] && ids=($(ls seeded | grep -v MATRIX))
 out=seeded/MATRIX.txt.new; : > $out
 for id in "${ids[@]}"; do
   d=seeded/$id; [ -f $d/patch.diff ] || continue
   props=$(python3 -c "import json;print(' '.join(json.load(open('$d/meta.json'))['result'].keys()))")
-  git -C /repo apply "$PWD/$d/patch.diff" || { echo "$id: patch does not apply" | tee -a $out; continue; }
+  WT=$(mktemp -d /tmp/seedmx-wt-XXXXXX)
+  git -C /repo worktree add -q --detach "$WT" HEAD || { echo "$id: worktree failed" | tee -a $out; continue; }
+  if ! git -C "$WT" apply "$PWD/$d/patch.diff" 2>/dev/null; then
+    echo "$id: patch does not apply" | tee -a $out
+    git -C /repo worktree remove --force "$WT" >/dev/null 2>&1; rm -rf "$WT"; continue
+  fi
   for p in $props; do
     rd=$(mktemp -d /tmp/seedmx-XXXXXX)
-    VERIF_NO_EVIDENCE=1 VERIF_REPLAY_DIR=$rd ./check $p > /tmp/seedmx-$p.log 2>&1; rc=$?
-    rule=$(grep -m1 '^  rule ' /tmp/seedmx-$p.log | cut -c8-120)
+    VERIF_REPO="$WT" VERIF_NO_EVIDENCE=1 VERIF_REPLAY_DIR=$rd ./check $p > /tmp/seedmx-$id-$p.log 2>&1; rc=$?
+    rule=$(grep -m1 '^  rule ' /tmp/seedmx-$id-$p.log | cut -c8-120)
     case $rc in 1) res="caught"; f=$(ls $rd/*.json 2>/dev/null | head -1); [ -n "$f" ] && cp "$f" $d/replay-$p.json ;; 0) res="NOT caught" ;; *) res="trouble(exit $rc)" ;; esac
-    printf "%-48s %-4s %-18s %s\n" "$id" "$p" "$res" "$rule" | tee -a $out
+    printf "%-52s %-4s %-18s %s\n" "$id" "$p" "$res" "$rule" | tee -a $out
     rm -rf $rd
   done
-  git -C /repo checkout -- .
+  git -C /repo worktree remove --force "$WT" >/dev/null 2>&1; rm -rf "$WT"
 done
 [ $# -eq 0 ] && mv $out seeded/MATRIX.txt
-git -C /repo status --short | head -3
+git -C /repo worktree prune
